@@ -14,6 +14,9 @@ BmpRT(b, used) == [op |-> "bmp_roundtrip", input |-> ImageWith(b, used), canon |
                    w |-> b.w, h |-> b.h, bc |-> b.bc, npal |-> Len(b.palette), rows |-> Abs(b.h), pitch |-> Pitch(b.w, b.bc)]
 Factory(w, h, bc) == [op |-> "bmp_factory", w |-> w, h |-> h, bc |-> bc,
                       image |-> Encode([w |-> w, h |-> h, bc |-> bc, palette |-> [i \in 1..MaxPalette(bc) |-> <<0,0,0,0>>], rows |-> [r \in 1..Abs(h) |-> Zeros(Pitch(w, bc))]])]
+\* the factory overloads taking a (possibly partial) palette and the pixel rows: the object serialises to Encode of that value
+Factory2(b) == [op |-> "bmp_factory2", w |-> b.w, h |-> b.h, bc |-> b.bc, palette |-> b.palette, pixels |-> Flatten(b.rows), image |-> ImageWith([b EXCEPT !.palette = FullPalette(b)], 0),
+                canon |-> Encode(b)]
 TsCase(h, seed) == LET p == TS(h, seed) IN
    [op |-> "tileset", bmp |-> Encode(p), custom |-> EncodeCustom(p), top |-> Encode(TopDown(p))]
 TsBad(w, h, bc) == [op |-> "tileset_bad", bmp |-> Encode(B(w, h, bc, MaxPalette(bc), 1))]
@@ -23,6 +26,8 @@ Next == /\ ~done /\ done' = TRUE
         /\ \A bc \in Depths : \A w \in 0..MaxWidth : \A h \in {-2, -1, 0, 1, 3} :
              /\ Emit(<<"full", bc, w, h>>, << BmpRT(B(w, h, bc, MaxPalette(bc), w + bc), 0), Factory(w, h, bc) >>)
              /\ (w % 7 = 1 => \A np \in {1, MaxPalette(bc) - 1} : Emit(<<"partial", bc, w, h, np>>, << BmpRT(B(w, h, bc, np, w), np) >>))
+        /\ \A bc \in Depths : \A w \in {0, 1, 5, 9, 33} : \A h \in {-2, 0, 1, 3} : \A np \in {0, 1, MaxPalette(bc)} :
+             Emit(<<"factory2", bc, w, h, np>>, << Factory2(B(w, h, bc, np, w + np)) >>)
         /\ \A h \in {0, 32, -32, 64} : \A seed \in {0, 5} : Emit(<<"ts", h, seed>>, << TsCase(h, seed) >>)
         /\ Emit(<<"tsbad">>, << TsBad(32, 32, 4), TsBad(31, 32, 8), TsBad(33, 32, 8), TsBad(32, 33, 8), TsBad(32, -31, 8) >>)
         /\ \A b1 \in {80, 81}, b2 \in {66, 67}, b3 \in {77, 78}, b4 \in {80, 81} : \A pos \in {0, 3} : Emit(<<"det", b1, b2, b3, b4, pos>>, << Detect(<<b1, b2, b3, b4>>, pos) >>)
